@@ -32,11 +32,12 @@ var solvers = []solverSpec{
 }
 
 type solveResult struct {
-	status string // unsat | sat | unknown
-	solver string
-	ms     int64
-	output string
-	all    map[string]string
+	status    string // unsat | sat | unknown
+	solver    string
+	ms        int64
+	output    string
+	all       map[string]string
+	confirmed int // confirmAll: number of solvers with the same definitive answer
 }
 
 var extraModelTerms map[string]*Term
@@ -176,8 +177,73 @@ func runSolver(ctx context.Context, s solverSpec, file string, timeoutS, seed in
 	return "error", text
 }
 
+// confirmAll (thorough tier): do not stop at the first definitive answer; every solver runs to its own
+// answer or time limit, the number of agreeing definitive answers is recorded, and two definitive answers
+// that contradict each other make the obligation undecided ("solver disagreement").
+var confirmAll bool
+
+func solveConfirm(file string, timeoutS, seed int) solveResult {
+	ctx, cancel := context.WithCancel(context.Background())
+	defer cancel()
+	type r struct {
+		name, status, out string
+		ms                int64
+	}
+	ch := make(chan r, len(solvers))
+	start := time.Now()
+	for _, s := range solvers {
+		go func(s solverSpec) {
+			st, out := runSolver(ctx, s, file, timeoutS, seed)
+			ch <- r{s.name, st, out, time.Since(start).Milliseconds()}
+		}(s)
+	}
+	res := solveResult{status: "unknown", all: map[string]string{}}
+	nSat, nUnsat := 0, 0
+	var grace <-chan time.Time
+	got := 0
+loop:
+	for got < len(solvers) {
+		select {
+		case x := <-ch:
+			got++
+			res.all[x.name] = x.status
+			switch x.status {
+			case "sat":
+				nSat++
+			case "unsat":
+				nUnsat++
+			}
+			if (x.status == "sat" || x.status == "unsat") && res.solver == "" {
+				res.status, res.solver, res.ms, res.output = x.status, x.name, x.ms, x.out
+				// the other solvers get a grace period of three times the first answer's time (at least 5 s)
+				g := 3 * time.Since(start)
+				if g < 5*time.Second {
+					g = 5 * time.Second
+				}
+				grace = time.After(g)
+			}
+		case <-grace:
+			cancel()
+			break loop
+		}
+	}
+	res.confirmed = nSat + nUnsat
+	if nSat > 0 && nUnsat > 0 {
+		res.status = "unknown"
+		res.output = fmt.Sprintf("solver disagreement: %v", res.all)
+		res.solver = ""
+	}
+	if res.ms == 0 {
+		res.ms = time.Since(start).Milliseconds()
+	}
+	return res
+}
+
 // solve races the installed solvers on one VC file.
 func solve(file string, timeoutS, seed int) solveResult {
+	if confirmAll {
+		return solveConfirm(file, timeoutS, seed)
+	}
 	ctx, cancel := context.WithCancel(context.Background())
 	defer cancel()
 	type r struct {
@@ -308,6 +374,7 @@ func dischargeAll(res *FuncResult, dir string, timeoutS, seed, par int, modelVar
 			}
 			r := solve(file, tmo, seed)
 			o.Solver, o.Ms = r.solver, r.ms
+			o.Confirmed = r.confirmed
 			o.Detail = file
 			if o.Vacuity {
 				if r.status == "unsat" {
